@@ -250,4 +250,36 @@ def evalG : GFilter → Request → Bool
 
 def evalGs (fs : List GFilter) (req : Request) : Bool := fs.all (evalG · req)
 
+/-! ## CUSTOM: when the external authorizer is consulted
+
+An RBAC filter evaluates its shadow rules next to its enforced ones; when a shadow policy matches it
+writes the name of the matching policy (Envoy keeps the policies in a map ordered by name: the first
+one in that order) to its dynamic metadata under `<shadow prefix>shadow_effective_policy_id`.  The
+`ext_authz` filter of a CUSTOM provider is enabled by a metadata matcher on exactly that key: it is
+consulted when the stored id starts with `istio-ext-authz-<provider>`.  A later RBAC filter of the
+same name overwrites the key only when one of ITS shadow policies matches. -/
+
+/-- The smallest name (byte order). -/
+def minName : List Str → Option Str
+  | [] => none
+  | n :: ns => match minName ns with
+    | none => some n
+    | some m => if strLt m n then some m else some n
+
+/-- The id the shadow engine of the filter writes for the request, if any. -/
+def shadowWrite (f : Filter) (req : Request) : Option Str :=
+  match f.shadow with
+  | some r => minName ((r.policies.filter fun e => evalPolicy e.2 req).map (·.1))
+  | none => none
+
+/-- Walks the chain: `cur` is the value currently stored under the CUSTOM shadow key; returns the id
+    prefixes of the `ext_authz` filters whose enabling matcher holds, in chain order. -/
+def extAuthzEnabled : List GFilter → Option Str → Request → List Str
+  | [], _, _ => []
+  | .rbac f :: rest, cur, req =>
+    extAuthzEnabled rest
+      (if f.shadowPrefix == extAuthzShadowPrefix then (shadowWrite f req).orElse (fun _ => cur) else cur) req
+  | .extAuthz _ _ pfx :: rest, cur, req =>
+    (if cur.any (hasPrefix pfx) then [pfx] else []) ++ extAuthzEnabled rest cur req
+
 end IstioModel.C08
